@@ -292,6 +292,22 @@ func (o *Oracle) Ask(id, req string) string {
 	return line
 }
 
+// AskRaw is Ask without the abort on ERR / FUEL: for properties where running out of fuel is an
+// ordinary outcome. The caller must not count such answers as agreement.
+func (o *Oracle) AskRaw(id, req string) string {
+	o.mu.Lock()
+	defer o.mu.Unlock()
+	if strings.ContainsAny(req, "\n\r") {
+		panic("oracle request contains newline: " + req)
+	}
+	fmt.Fprintf(o.in, "%s %s\n", id, req)
+	line, err := o.out.ReadString('\n')
+	if err != nil {
+		panic("oracle died on request: " + id + " " + req)
+	}
+	return strings.TrimRight(line, "\n")
+}
+
 func (o *Oracle) Close() {
 	o.in.Close()
 	o.cmd.Wait()
@@ -613,7 +629,7 @@ func main() {
 			if r := recover(); r != nil {
 				// a harness error is not agreement: report it as a broken check
 				fmt.Fprintf(os.Stderr, "HARNESS ERROR: %v\n", r)
-				if os.Getenv("VH_STACK") != "" {
+				if os.Getenv("VH_STACK") != "" || os.Getenv("VH_DEBUG") != "" {
 					os.Stderr.Write(debug.Stack())
 				}
 				c.Res.Notes = append(c.Res.Notes, fmt.Sprintf("HARNESS ERROR: %v", r))
